@@ -114,7 +114,11 @@ def cbmc_flags(job):
         if f in fl:
             fl.remove(f)
     if job.unwind is not None:
-        fl += ['--unwind', str(job.unwind), '--unwinding-assertions']
+        fl += ['--unwind', str(job.unwind)]
+        if getattr(job, 'no_unwinding_assertions', False):
+            fl += ['--no-unwinding-assertions']
+        else:
+            fl += ['--unwinding-assertions']
     if job.object_bits:
         fl += ['--object-bits', str(job.object_bits)]
     fl += job.cbmc_extra
@@ -221,7 +225,8 @@ def cover(job, workdir):
             results = item['result']
     if results is None:
         return 0, 0, [], 'no result list in cover run'
-    goals = [r for r in results if r.get('description', '').startswith('YVCOVER')]
+    goals = [r for r in results if r.get('description', '').startswith('YVCOVER')
+             and (r.get('sourceLocation') or {}).get('function') in (job.entry, None)]
     total = len(goals)
     hit = sum(1 for g in goals if g.get('status') == 'FAILURE')
     missed = [g.get('description') for g in goals if g.get('status') != 'FAILURE']
